@@ -721,6 +721,11 @@ func (w *verifWorld) addr(vs *verifSess, t string, asChan bool) string {
 		other := a
 		if vs.user == a {
 			other = b
+		} else if vs.user != b {
+			// a third user cannot name somebody else's p2p topic through a user id: use its canonical name
+			if c := w.canon(t); c != "" {
+				return c
+			}
 		}
 		if uid, ok := w.users[other]; ok {
 			return uid.UserId()
